@@ -96,6 +96,20 @@ def check(ctx):
     rc = prog.async_body("acmed::acme_proto::request_certificate")
     wcs = rc.calls_to("acmed::storage::write_certificate")
     ctx.floor(R3, "write_certificate call in request_certificate", len(wcs), 1)
+    from .request_model import request_traces as _rt0
+    rtr0 = _rt0(prog)
+    if rtr0 is not None:
+        # evaluation first (request traces): on every successful attempt the bytes written are the download itself — the value parsed
+        # and matched against the key, which is http::get_certificate's answer
+        for k_, v_ in sorted(rtr0.items()):
+            if k_[2] != "ok":
+                continue
+            wr_ = [e for e in v_["events"] if e[0] == "write_certificate"]
+            fp_ = [e for e in v_["events"] if e[0] == "from_pem"]
+            good_ = len(wr_) == 1 and len(fp_) >= 1 and wr_[0][1] is not None and wr_[0][1] == fp_[-1][1] and "get_certificate" in wr_[0][1]
+            ctx.require(R3, good_, "%s:%s" % (rc.file, rc.line), "kp_reuse=%s, stored key %s: the certificate bytes written (%s) are the validated download (%s)" % (
+                k_[0], "readable" if k_[1] else "unreadable", wr_[0][1] if wr_ else None, fp_[-1][1] if fp_ else None), ["request_certificate", "cert-bytes-evaluated", repr(k_)])
+        wcs = []
     for c in wcs:
         sl = arg_origins(c, 1)
         src = [x for x in sl.calls if x.is_or_polls("acmed::acme_proto::http::get_certificate")]
@@ -104,6 +118,8 @@ def check(ctx):
         ctx.require(R3, not other, c.where(), "only representation-preserving conversions between download and write (%s)" % other, ["request_certificate", "cert-transformed"])
         extra = sorted(l for l in sl.leaves if l.startswith("call:") and "get_certificate" not in l)
         ctx.require(R3, not extra, c.where(), "nothing else flows into the certificate bytes (%s)" % extra, ["request_certificate", "cert-mixed"])
+    for c in rc.calls_to("acmed::storage::write_certificate"):
+        src = [x for x in arg_origins(c, 1).calls if x.is_or_polls("acmed::acme_proto::http::get_certificate")]
         # what is written is the very download that was VALIDATED (parsed and matched against the key), not another response
         src_bbs = {x.bb for x in src}
         for v_ in rc.calls_to("acme_common::crypto::openssl_certificate::X509Certificate::from_pem", "acme_common::crypto::openssl_certificate::X509Certificate::from_pem_native"):
